@@ -1,5 +1,9 @@
 mod exec;
 mod exec_l1;
+mod exec_l2;
+mod eval;
+mod gen_l1;
+mod gen_trie;
 mod gen_l0;
 mod rng;
 mod util;
@@ -40,6 +44,7 @@ fn main() {
             let lines = match stream.as_str() {
                 "c17" => gen_l0::gen_c17(&tier, seed),
                 "c08.markers" => gen_l0::gen_c08_markers(&tier, seed),
+                other if other.starts_with("l1.") => gen_l1::generate(other, &tier, seed),
                 other => {
                     eprintln!("unknown stream {other}");
                     std::process::exit(2);
@@ -87,12 +92,13 @@ fn main() {
             r.push_str(
                 &ex.oracle_failures
                     .iter()
-                    .map(|(p, n, w)| {
+                    .map(|(p, n, w, t)| {
                         format!(
-                            "{{\"property\":\"{}\",\"line\":{},\"what\":\"{}\"}}",
+                            "{{\"property\":\"{}\",\"line\":{},\"what\":\"{}\",\"tag\":\"{}\"}}",
                             json_escape(p),
                             n,
-                            json_escape(w)
+                            json_escape(w),
+                            json_escape(t)
                         )
                     })
                     .collect::<Vec<_>>()
@@ -100,6 +106,27 @@ fn main() {
             );
             r.push_str("]}");
             std::fs::write(&report, r).unwrap();
+        }
+        "eval" => {
+            // --ops OPS --in MODEL --out EVAL : replace digest terms by bytes; `reset <cfg>` lines of the
+            // ops file select the hash
+            let ops = arg(&args, "--ops").expect("--ops");
+            let inp = arg(&args, "--in").expect("--in");
+            let outp = arg(&args, "--out").expect("--out");
+            let fo = std::io::BufReader::new(std::fs::File::open(&ops).unwrap());
+            let fi = std::io::BufReader::new(std::fs::File::open(&inp).unwrap());
+            let mut o = std::io::BufWriter::new(std::fs::File::create(&outp).unwrap());
+            let mut ev = eval::Evaluator::new();
+            for (op, line) in fo.lines().zip(fi.lines()) {
+                let op = op.unwrap();
+                let line = line.unwrap();
+                let t: Vec<&str> = op.split_whitespace().collect();
+                if t.len() == 2 && t[0] == "reset" {
+                    ev.cfg = t[1].to_string();
+                }
+                writeln!(o, "{}", ev.line(&line)).unwrap();
+            }
+            o.flush().unwrap();
         }
         _ => {
             eprintln!("usage: harness gen <stream> --tier T --seed S --out F | exec --in OPS --out OBS --report R");
